@@ -9,7 +9,7 @@ use crate::ir::declarations::{Declaration, Declarations};
 use crate::ir::degree_meta::{DegreeEnvironment, Degree, DegreeRange};
 use crate::ir::value_meta::ValueEnvironment;
 use crate::ir::variable_meta::VariableMeta;
-use crate::ir::{VariableName, VariableType, SignalType};
+use crate::ir::{Expression, SignalType, Statement, VariableName, VariableType};
 use crate::ssa::dominator_tree::DominatorTree;
 use crate::ssa::errors::SSAResult;
 use crate::ssa::{insert_phi_statements, insert_ssa_variables};
@@ -503,6 +503,22 @@ impl Cfg {
     pub(crate) fn propagate_values(&mut self) {
         debug!("propagating constant values for `{}`", self.name());
         let mut env = ValueEnvironment::new(&self.constants);
+        // Signals and components are not versioned. One that is assigned by more than one
+        // statement may hold a different value on each path (even if only one of the assigned
+        // expressions is a constant), so it is never treated as a constant.
+        let mut assigned = HashSet::new();
+        for basic_block in self.iter() {
+            for stmt in basic_block.iter() {
+                if let Statement::Substitution { var, rhe, .. } = stmt {
+                    if var.version().is_none()
+                        && !matches!(rhe, Expression::Update { .. })
+                        && !assigned.insert(var.clone())
+                    {
+                        env.set_non_constant(var);
+                    }
+                }
+            }
+        }
         let mut rerun = true;
         let start = Instant::now();
         #[cfg(feature = "verif")]
